@@ -7,6 +7,7 @@ from sa.rules import dispatch as D
 from sa.rules import pipeline as P
 from sa.rules import traversal as T
 from sa.rules import validators as V
+from sa.rules import bounds_rules as BRX
 from sa.rules import schematype as ST
 
 
@@ -47,4 +48,5 @@ def main(tier):
     chk.run("R-PRECOND", FLW.precond, cx.repo, floor=3)
     # "rejected with an error that points into the definition containing the offending construct"
     chk.run("R-FOREIGNFILE", ST.foreignfile, cx.repo, floor=8)
+    chk.run("R-EXTINT", BRX.extint, cx.repo, floor=2)
     return chk.finish()
